@@ -23,6 +23,8 @@ def multi_node_inv(rng, fail=0.0):
         rng.shuffle(apps)
         params = [(S('trace'), L(S('NODE')))]
         cl = ['sel'] + roots
+        if rng.random() < 0.15:
+            cl = []            # a node that includes no class (its applications still count)
         if style == 'plain':
             path, node_name = ('n%02d.yml' % i,), 'n%02d' % i
         elif style == 'pool':
@@ -109,7 +111,7 @@ def run(tier, rng, C):
                 fails.append({'key': 'inventory-index', 'severity': 'fail', 'show': c['show'], 'lines': [c['line']], 'reason': bad,
                               'model': C.describe(mobs.get(c['id'], ''))[:400], 'impl': C.describe(o)[:400], 'size': len(c['line'])})
         return fails
-    rule = ('%d inventories with 2-10 nodes over shared class graphs, overlapping class/application sets with negations, application names that are also class names of the same node, one third '
+    rule = ('%d inventories with 2-10 nodes over shared class graphs, overlapping class/application sets with negations, application names that are also class names of the same node, nodes without classes, one third '
             'with a random subset of failing nodes (missing class, reference loop); full render through the index accessor hook; '
             'oracle: indexes = sorted exact inverse of the implementation\'s own per-node lists, nodes = discovered nodes, fails iff '
             'some node fails and names one; non-trivial = all (>= 2 nodes)' % n)
